@@ -1,6 +1,6 @@
 PROPERTY = "C08"
 LEVEL = "proof"
-LEAN_MODULES = ["CifModel.Props.C08"]
+LEAN_MODULES = ["CifModel.Props.C08", "CifModel.Props.ReviewC08"]
 REQUIRED = ["CifModel.C08_firstChar_link", "CifModel.C08_fold_prefix", "CifModel.C08_fold_any_chunking",
             "CifModel.C08_chunking_irrelevant", "CifModel.C08_style_independent", "CifModel.C08_handle_eol",
             "CifModel.C08_line_numbers", "CifModel.C08_unrepaired_first_char", "CifModel.C08_cex_three_cr",
